@@ -215,6 +215,7 @@ pub fn run(ctx: &Ctx) -> Report {
     let cases = ctx.tier.pick(200_000u32, 2_000_000u32);
     let rnd = run_shards(16, |shard| {
         let mut st = Stats::new();
+        poison_parses(10);
         // unknown words (no keyword as a prefix) at random positions
         let word = prop_oneof![
             4 => "-[b-np-z][a-z-]{0,12}",
